@@ -3,7 +3,7 @@
 for m in "$@"; do
   id=${m%/*}; x=${m#*/}
   c=$(/verif/tools/verify_mutant.sh $id $x | grep -E '^(CONFIRMED|NOT-CONFIRMED|APPLY-FAIL)')
-  /verif/tools/mutcheck.sh /tmp/mut-$m/patch.diff ${CHECKS:-$id} >/tmp/mutwave.out 2>&1
+  /verif/tools/mutcheck.sh /tmp/${MUT:-mut}-$m/patch.diff ${CHECKS:-$id} >/tmp/mutwave.out 2>&1
   r=$(grep -E '^C[0-9]+ rc=|^\[' /tmp/mutwave.out | head -n 3 | cut -c1-330 | tr '\n' ' ')
   echo "$m | $c | $r"
 done
